@@ -360,6 +360,16 @@ pub fn gen_state<S: Src, const N: usize>(s: &mut S, need_reach: bool) -> St<N> {
                 }
             }
         });
+        // sometimes: every element removed again (a table with len() == 0 that still holds tombstones)
+        if s.below(8) == 0 {
+            let start = s.below(N);
+            for_upto!(j, N, {
+                let idx = (start + j * 3) & (N - 1);
+                if st.kind[idx] == K_FULL {
+                    st.kind[idx] = if spec_erase_writes_deleted(&st, idx) { K_DELETED } else { K_EMPTY };
+                }
+            });
+        }
         let _ = (items, dels);
     } else {
         // arbitrary placement
